@@ -21,7 +21,8 @@ EXPLANATION = (
     "undecidable comparisons (TypeError, unknown column, missing bound) never prune; (R4) the bound codec tables agree: tags "
     "written = tags read, each with the inverse constructor, subclass isinstance tests precede superclass tests; (R5) bounds "
     "are stored and looked up under the id of the field with the same name; (R6) bounds are computed from the very table that "
-    "is written.")
+    "is written."
+    ' Also: the encoder is lossless and the stored bound is the untransformed pc.min/pc.max; (R7) appends cannot re-number field ids (C11.R1).')
 NOT_DECIDED = ("pc.min/max and Arrow comparison semantics (e.g. int64 beyond 2^53 against a float literal); end-to-end "
                "pruned-vs-unpruned equality at run time")
 ASSUMPTIONS = ["values of one column are totally ordered except float NaN; pc.min/pc.max ignore NULL and NaN rows"]
